@@ -379,6 +379,17 @@ def run(prog: Program, L: Ledger) -> None:
             f"the child's target is not one draw from the filtered candidates, stored before the child is called: {why_choice} {[norm(c)[:50] for c in other_draws]}", "already displaced particle chosen again", "choice")
     L.check(ok_reg, "D4", "CompositeDisplacementMove.__call__:one-registration", cc0.where,
             f"a child iteration does not register exactly its own outcome: {why_reg}", "the reported number of moved particles is wrong / a displaced label is not recorded and can be chosen again", "registration")
+    # the guarantees above are those of CompositeDisplacementMove: every way of combining displacement moves with + and *
+    # must build that class (dispatch evaluated by the checker-owned interpreter of C17)
+    from . import c17
+
+    L.rule("D6", "every +/* combination of displacement moves (any parenthesisation, up to 4 operands) is a CompositeDisplacementMove")
+    disp = c17.family_dispatch(prog, "D")
+    wrong = [(txt, cls) for txt, cls in disp if cls != cd.name]
+    L.check(not wrong, "D6", "DisplacementMove:+/*-dispatch", dm.where,
+            "combinations of displacement moves that are not a CompositeDisplacementMove: " + "; ".join(f"{t} -> {c}" for t, c in wrong[:4]),
+            f"`{wrong[0][0]}` is a {wrong[0][1]}: its children pick their targets independently, so one call can displace the same particle twice and number_of_moved_particles is not available" if wrong else "", "dispatch")
+    L.extra["dispatch_expressions"] = len(disp)
     regs = cd.methods.get("register_success")
     regf = cd.methods.get("register_failure")
     oks = regs is not None and any(isinstance(c, ast.Call) and norm(c.func) == "self.displaced_labels.append" and norm(c.args[0]) == f"{regs.params()[1]}.displaced_labels" for c in calls_in(regs.node))
